@@ -27,6 +27,7 @@ func wgModels(ctx *core.Ctx, f func(i int, tm gen.Tagged) bool) {
 	extra = append(extra, gen.SameTargetModels()...)
 	extra = append(extra, gen.TuplesetListModels()...)
 	extra = append(extra, gen.SecondRouteModels()...)
+	extra = append(extra, gen.TTUPairModels()...)
 	// size sweeps: one dimension of the graph scaled (operands, relations, types on one tuple cycle, restrictions, chains of
 	// n hops, parent types, public types)
 	gsizes := []int{13, 33, 65}
